@@ -95,8 +95,9 @@ def check(cand, props, tier):
             r = subprocess.run(["python3", os.path.join(VERIF, "check.py"), p, "--tier", tier], cwd=VERIF, env=env, capture_output=True, text=True)
             sigs = [l.strip() for l in r.stdout.splitlines() if l.strip().startswith("sig:")]
             verdict = "CAUGHT" if r.returncode == 1 and "VIOLATION" in r.stdout else ("INCONCLUSIVE" if r.returncode == 2 else "MISSED")
-            out_all[p] = {"verdict": verdict, "exit": r.returncode, "sigs": sigs[:8]}
-            print("%s %s: %s %s" % (os.path.basename(cand.rstrip("/")), p, verdict, sigs[:4]))
+            counts = [int(l.split(":")[1]) for l in r.stdout.splitlines() if l.strip().startswith("count:")]
+            out_all[p] = {"verdict": verdict, "exit": r.returncode, "sigs": sigs[:8], "hits": sum(counts)}
+            print("%s %s: %s %s hits=%d" % (os.path.basename(cand.rstrip("/")), p, verdict, sigs[:4], sum(counts)))
     finally:
         drop(wt)
         # evidence files were rewritten by the mutated run: the caller re-runs the check on the clean tree before committing
